@@ -86,8 +86,6 @@ Fixpoint digits_of_uint (u : Decimal.uint) : bytes :=
   end.
 Definition dec (n : N) : bytes := digits_of_uint (N.to_uint n).
 
-Definition has_slash (b : bytes) : bool := existsb (fun x => Byte.eqb x x2f) b.
-
 (** * Heights and store keys *)
 Definition height := (N * N)%type.   (* (revision number, revision height) *)
 Definition key_eqb (a b : height) : bool := (fst a =? fst b) && (snd a =? snd b).
@@ -131,7 +129,8 @@ Definition uncleHash : bytes :=
   [x1d;xcc;x4d;xe8;xde;xc7;x5d;x7a;xab;x85;xb5;x67;xb6;xcc;xd4;x1a;
    xd3;x12;x45;x1b;x94;x8a;x74;x13;xf0;xa1;x42;xfd;x40;xd4;x93;x47].
 
-(** [ToBscHeader] panics when the bloom is longer than 256 or the nonce longer than 8 bytes. *)
+(** [ToBscHeader] panics when the bloom is longer than 256 or the nonce longer than 8 bytes
+    (only the header of a client state that was created without validation can be like that). *)
 Definition tobsc_ok (h : header) : bool := (len (h_bloom h) <=? 256) && (len (h_nonce h) <=? 8).
 
 (** * Client state, consensus state, client store *)
@@ -224,16 +223,16 @@ Section Model.
   Variable hdr_hash : header -> bytes.
   Variable ecrecover : N -> header -> option bytes.
 
-  (** header.go ValidateBasic *)
+  (** header.go ValidateBasic (bloom / nonce lengths are checked first, so the
+      [ToBscHeader] it calls for the difficulty cannot panic) *)
   Definition validate_basic (h : header) : result unit :=
-    if len (h_extra h) <? extraVanity then RErr 4
+    if 256 <? len (h_bloom h) then RErr 1
+    else if 8 <? len (h_nonce h) then RErr 1
+    else if len (h_extra h) <? extraVanity then RErr 4
     else if len (h_extra h) <? extraVanity + extraSeal then RErr 5
     else if negb (bytes_eqb (to_hash (h_mix h)) (zeros 32)) then RErr 6
     else if negb (bytes_eqb (to_hash (h_uncle h)) uncleHash) then RErr 7
-    else if 0 <? h_num h then
-      if negb (tobsc_ok h) then RPanic                                  (* ToBscHeader: BytesToBloom / BytesToBlockNonce *)
-      else if N_of_bytes (h_diff h) mod two64 =? 0 then RErr 8          (* Difficulty.Uint64() == 0 *)
-      else ROk tt
+    else if (0 <? h_num h) && (N_of_bytes (h_diff h) mod two64 =? 0) then RErr 8   (* Difficulty.Uint64() == 0 *)
     else ROk tt.
 
   (** The gas-limit bound of verifyCascadingFields with its int64/uint64 casts. *)
@@ -278,7 +277,6 @@ Section Model.
       else if 9223372036854775807 <? h_gaslimit h then RErr 1
       else if h_gaslimit h <? h_gasused h then RErr 1
       else if gas_bound_bad (h_gaslimit parent) (h_gaslimit h) then RErr 1
-      else if two63 <=? c_chain cs then RPanic                           (* sealHash: rlp of big.NewInt(int64(ChainId)) < 0 *)
       else
       match sealer (c_chain cs) h with
       | None => RErr 1
@@ -292,20 +290,17 @@ Section Model.
 
   (** verifySeal after SetSigner: the difficulty must match the turn. *)
   Definition verify_post (cs : cstate) (h : header) (signer : bytes) : result unit :=
-    if negb (tobsc_ok h) then RPanic
-    else
-      let d := N_of_bytes (h_diff h) in
-      if inturn cs signer then (if d =? diffInTurn then ROk tt else RErr 13)
-      else (if d =? diffNoTurn then ROk tt else RErr 13).
+    let d := N_of_bytes (h_diff h) in
+    if inturn cs signer then (if d =? diffInTurn then ROk tt else RErr 13)
+    else (if d =? diffNoTurn then ROk tt else RErr 13).
 
-  (** update.go CheckHeaderAndUpdateState: the pruning of the EARLIEST iterable
-      consensus state (keys whose binary height contains '/' are skipped by the
-      [strings.Split] test of IterateConsensusStateAscending). *)
-  Definition iterable (k : height) : bool := negb (has_slash (be64 (fst k) ++ be64 (snd k))).
+  (** update.go CheckHeaderAndUpdateState: the pruning of the EARLIEST consensus
+      state (IterateConsensusStateAscending stops after the first key; keys are
+      parsed at fixed offsets, every stored consensus state is visited). *)
   Definition prune_target (bt : N) (cs : cstate) (st : cstore) : option height :=
-    match find (fun e => iterable (fst e)) (cons st) with
-    | Some (k, c) => if add64 (cs_time c) (c_trust cs) <? bt then Some k else None
-    | None => None
+    match cons st with
+    | (k, c) :: _ => if add64 (cs_time c) (c_trust cs) <? bt then Some k else None
+    | [] => None
     end.
   Definition prune (bt : N) (cs : cstate) (st : cstore) : cstore :=
     match prune_target bt cs st with
@@ -394,7 +389,6 @@ Section Model.
     if c_epoch cs =? 0 then (st, RPanic)
     else if negb (h_num h mod c_epoch cs =? 0) then (st, RErr 2)
     else if len (h_extra h) <? extraSeal then (st, RErr 5)
-    else if two63 <=? c_chain cs then (st, RPanic)                       (* sealHash: negative chain id cannot be encoded *)
     else match sealer (c_chain cs) h with
          | None => (st, RErr 1)
          | Some signer =>
